@@ -119,7 +119,59 @@ def pairsJudge (f : List String) (out : String) : String :=
   | some s => pairVerdict s out
   | none => "bad:unparsable:case"
 
+/-! c09.callbacks  blocks perm cbs — see harness/streams/c09.go -/
+def probeDirs : List Dir := ["p1", "p2", "p3", "p4"]
+
+def parseProbeBlocks (s : String) : List (List Dir) :=
+  (s.splitOn ";").map fun b => if b = "" then [] else b.splitOn ","
+
+def mkBlock (ds : List Dir) : Block :=
+  { keys := ["site", "alias"], lines := ds.map fun d => { dir := d, tokens := [d] } }
+
+def showEvent : Event → String
+  | .setup c => s!"s:{c.dir}:{c.block}:{c.key}"
+  | .cb d => s!"c:{d}"
+
+def parseEvent (s : String) : Option Event :=
+  match s.splitOn ":" with
+  | ["s", d, b, k] => do pure (.setup { dir := d, block := ← b.toNat?, key := ← k.toNat?, tokens := [] })
+  | ["c", d] => some (.cb d)
+  | _ => none
+
+structure CbCase where
+  blocks : List Block
+  blocks' : List Block
+  cbs : Dir → Bool
+
+def parseCbCase : List String → Option CbCase
+  | [bs, perm, cbs] => do
+    let bl := parseProbeBlocks bs
+    let first ← bl.head?
+    let perm ← Driver.natList perm
+    let re ← perm.mapM fun i => first[i]?
+    if perm.length ≠ first.length then none else
+    let cbl := if cbs = "" then [] else cbs.splitOn ","
+    pure { blocks := bl.map mkBlock, blocks' := (re :: bl.drop 1).map mkBlock, cbs := fun d => cbl.contains d }
+  | _ => none
+
+def showEvents (evs : List Event) : String := ",".intercalate (evs.map showEvent)
+
+def callbacksModel (f : List String) : String :=
+  match parseCbCase f with
+  | none => "bad-case"
+  | some c => showEvents (execEvents c.cbs probeDirs c.blocks) ++ "#" ++ showEvents (execEvents c.cbs probeDirs c.blocks')
+
+def callbacksJudge (f : List String) (out : String) : String :=
+  match parseCbCase f, out.splitOn "#" with
+  | some c, [a, b] =>
+    let pe := fun (s : String) => if s = "" then some [] else (s.splitOn ",").mapM parseEvent
+    match pe a, pe b with
+    | some ea, some eb => scheduleVerdict probeDirs c.cbs ea eb
+    | _, _ => "bad:unparsable:" ++ out
+  | _, _ => "bad:unparsable:" ++ out
+
 def streams : List Driver.Stream := [
+  { name := "c09.callbacks", model := callbacksModel, judge := callbacksJudge },
   { name := "c09.pairs", model := pairsModel, judge := pairsJudge },
   { name := "c09.directives", model := directivesModel, judge := directivesJudge },
   { name := "c09.group", model := groupModel, judge := groupJudge },
